@@ -157,6 +157,8 @@ REPRO = {
     "D-48": ("本 * **3*4**\n", dict(width=1, semantic=False)),
     "D-49": ("```  *  ```\n", dict(width=88, semantic=False)),
     "D-61": ("[](http://ex.com/ref)(http://..\n\n[f]:http://ex.com/ref\n", dict(width=1, semantic=False)),
+    "D-67": ("_*a*_ b\n", dict(width=88, semantic=False)),
+    "D-69": ("<a  \nhref=\"x\">foo</a> bar\n", dict(width=88, semantic=False)),
     "D-37": ("1) one\n2) two\n\n1. three\n2. four\n", dict(width=88, semantic=False)),
 }
 
@@ -240,7 +242,7 @@ def classify(kf, rec):
     if cl == "hard-break-segment-head-unescaped":
         lines = c.get("out", "").split("\n")
         for a, b in zip(lines, lines[1:]):
-            if re.search(r"(?<!\\)(?:\\\\)*\\$", a):
+            if re.search(r"(?<!\\)(?:\\\\)*\\$", a) or re.search(r"(?:%\}|#\}|\}\}|-->)\s*$", a):
                 pre = re.match(r"^[ >]*", a).group()
                 body = b[len(pre):] if b.startswith(pre) else b.lstrip()
                 if body.split() and MARKER_WORD.match(body.split()[0]):
@@ -252,9 +254,13 @@ def classify(kf, rec):
     if cl == "code-span-padding-lost":
         m = re.search(r"CodeSpan\.s: (['\"])(.*)\1 became (['\"])(.*)\3$", what, flags=re.S)
         return bool(m) and m.group(2) != m.group(4) and m.group(2).strip() == m.group(4).strip()
+    if cl == "adjacent-emphasis-delimiters-of-two-kinds":
+        return bool(re.search(r"_\*|\*_", doc)) and any(k in what for k in ("Emphasis", "StrongEmphasis"))
+    if cl == "hard-break-inside-inline-html":
+        return bool(re.search(r"<[^<>\n]*  +\r?\n[^<>]*>", doc)) and any(k in what for k in ("InlineHTML", "LineBreak", "Text"))
     if cl == "underscore-emphasis-repaired":
         words = re.findall(r"[A-Za-z]{2,}", doc)
-        return "_" in doc and "*" in doc and ("Emphasis" in what or "Text.s" in what) and len(words) < 3
+        return "_" in doc and "*" in doc and not re.search(r"_\*|\*_", doc) and ("Emphasis" in what or "Text.s" in what) and len(words) < 3
     return False
 
 
